@@ -39,13 +39,14 @@ var c10Frames = map[string]string{
 var c10KindOrder = []string{"call", "more", "oneway", "getinfo", "null", "array", "number", "string", "meth5", "morex", "empty", "params5", "trunc", "badutf", "zero", "big", "herr", "unknown", "nulmeth", "trailing"}
 
 type c10Desc struct {
-	Frames []string `json:"frames"`         // frame kinds, each NUL-terminated on the wire
-	Tail   string   `json:"tail,omitempty"` // unterminated trailing bytes
-	Cut    int      `json:"cut"`            // the client sends only the first Cut bytes of the stream ...
-	End    string   `json:"end"`            // ... and then: half | close | abort
-	EPIPE  int      `json:"epipe"`          // the n-th reply write on the victim connection fails (0 = none)
-	Probe  bool     `json:"probe"`          // a well-behaved connection runs concurrently
+	Frames []string `json:"frames"`          // frame kinds, each NUL-terminated on the wire
+	Tail   string   `json:"tail,omitempty"`  // unterminated trailing bytes
+	Cut    int      `json:"cut"`             // the client sends only the first Cut bytes of the stream ...
+	End    string   `json:"end"`             // ... and then: half | close | abort
+	EPIPE  int      `json:"epipe"`           // the n-th reply write on the victim connection fails (0 = none)
+	Probe  bool     `json:"probe"`           // a well-behaved connection runs concurrently
 	Stall  int      `json:"stall,omitempty"` // the client never reads: room for Stall bytes of replies (<0: none), it closes only after the probe is done
+	Crowd  int      `json:"crowd,omitempty"` // the victim's script is run by this many connections, one after the other (0 = one)
 }
 
 // classify restates "a JSON value of the call's shape": null, or an object whose known members,
@@ -120,7 +121,7 @@ func (d c10Desc) stream() string {
 	return s + d.Tail
 }
 
-var probeScript = []callKind{{"org.varlink.service.GetInfo", ""}, {"t.b.R", ""}, {"org.varlink.service.GetInfo", ""}}
+var probeScript = []callKind{{Method: "org.varlink.service.GetInfo"}, {Method: "t.b.R"}, {Method: "org.varlink.service.GetInfo"}}
 
 func c10Body(d c10Desc) func() {
 	return func() {
@@ -137,50 +138,59 @@ func c10Body(d c10Desc) func() {
 			st.returned = true
 		})
 		vsched.GoDaemon("victim", func() {
-			c, err := l.Dial("v")
-			if err != nil {
-				st.victDone = true
-				return
-			}
-			w.Clients["v"] = c
-			if d.EPIPE > 0 {
-				c.Peer().FailWriteAt = d.EPIPE
-			}
-			if d.Stall != 0 {
-				c.Peer().Cap = d.Stall
-			}
-			s := d.stream()
-			if d.Cut < len(s) {
-				s = s[:d.Cut]
-			}
-			if len(s) > 0 {
-				c.Write([]byte(s))
-			}
-			if d.Stall != 0 {
-				// a client that pipelines calls and does not read: it goes away only after the well-behaved
-				// connection has been served completely (which must not depend on this one)
-				vsched.Yield("stalled-reader", "victim", func() bool {
-					pc, ok := w.Clients["p"]
-					return ok && strings.Count(string(pc.Received()), "\x00") >= len(probeScript)
-				})
-			}
-			switch d.End {
-			case "half":
-				c.CloseWrite()
-			case "close":
-				c.Close()
-			case "abort":
-				c.Abort()
-			case "wait":
-				// the client keeps the connection open and waits for the service to end it (the stream holds a
-				// frame that is not a call, or a call whose handler fails)
-				buf := make([]byte, 4096)
-				for {
-					if _, err := c.Read(buf); err != nil {
-						break
-					}
+			for round := 1; round <= max(1, d.Crowd); round++ {
+				// a crowd: the same script from many connections in a row (per-service bookkeeping that fills up,
+				// such as a bounded queue or table, shows only after enough of them); the last one is judged in detail,
+				// the resource checks cover all
+				name := "v"
+				if round < d.Crowd {
+					name = fmt.Sprintf("v%d", round)
 				}
-				c.Close()
+				c, err := l.Dial(name)
+				if err != nil {
+					st.victDone = true
+					return
+				}
+				w.Clients[name] = c
+				if d.EPIPE > 0 {
+					c.Peer().FailWriteAt = d.EPIPE
+				}
+				if d.Stall != 0 {
+					c.Peer().Cap = d.Stall
+				}
+				s := d.stream()
+				if d.Cut < len(s) {
+					s = s[:d.Cut]
+				}
+				if len(s) > 0 {
+					c.Write([]byte(s))
+				}
+				if d.Stall != 0 {
+					// a client that pipelines calls and does not read: it goes away only after the well-behaved
+					// connection has been served completely (which must not depend on this one)
+					vsched.Yield("stalled-reader", "victim", func() bool {
+						pc, ok := w.Clients["p"]
+						return ok && strings.Count(string(pc.Received()), "\x00") >= len(probeScript)
+					})
+				}
+				switch d.End {
+				case "half":
+					c.CloseWrite()
+				case "close":
+					c.Close()
+				case "abort":
+					c.Abort()
+				case "wait":
+					// the client keeps the connection open and waits for the service to end it (the stream holds a
+					// frame that is not a call, or a call whose handler fails)
+					buf := make([]byte, 4096)
+					for {
+						if _, err := c.Read(buf); err != nil {
+							break
+						}
+					}
+					c.Close()
+				}
 			}
 			st.victDone = true
 		})
@@ -444,6 +454,23 @@ func scenariosC10(tier string) []Scen {
 					dd.Cut, dd.End = n, "wait"
 					add(dd, 1)
 				}
+			}
+			// crowds: 40 connections in a row with the same offending stream (each waits for the service to end it),
+			// and 40 that abort after their stream
+			if tail == "" && len(fs) == 1 {
+				if _, ok := classifyCall(c10Frames[fs[0]]); !ok || fs[0] == "herr" {
+					dd := d
+					dd.Cut, dd.End, dd.Crowd = n, "wait", 40
+					out = append(out, Scen{Desc: dd, Bound: 0, Horizon: 400000, Body: c10Body(dd), Check: c10Check(dd), Obs: c10Obs})
+				}
+				for _, end := range []string{"abort", "close"} {
+					dd := d
+					dd.Cut, dd.End, dd.Crowd = n/2, end, 40
+					out = append(out, Scen{Desc: dd, Bound: 0, Horizon: 400000, Body: c10Body(dd), Check: c10Check(dd), Obs: c10Obs})
+				}
+				dd := d
+				dd.Cut, dd.End, dd.EPIPE, dd.Crowd = n, "half", 1, 40
+				out = append(out, Scen{Desc: dd, Bound: 0, Horizon: 400000, Body: c10Body(dd), Check: c10Check(dd), Obs: c10Obs})
 			}
 			// stalled readers: the victim's replies cannot be written (at all / after the first byte) until it goes away
 			if tail == "" && len(fs) <= 2 {
